@@ -226,7 +226,12 @@ pub fn c03_twilight(a: &Args) -> Report {
     let mut rep = Report::new("c03_twilight", &format!("{} seeded cases |lat|<=60, dates 1600..2399, 6 angle methods + custom Fajr/Isha angles in [9,21], Imsaak angles in [0.5,3]", n));
     let mut rng = Rng::new(a.seed ^ 0xC03);
     for k in 0..n {
-        let c = any_case(&mut rng, k, 60., 3.);
+        let mut c = any_case(&mut rng, k, 60., 3.);
+        if k % 6 == 5 {
+            // GMT offsets up to 7 h away from lon/15 (beyond ~10 h "which day" is ambiguous): the clauses are stated
+            // relative to that day's Dhuhr, so a time falling on the other side of clock midnight does not matter
+            c.gmt = (((c.lon / 15. + rng.range(-7., 7.)) * 4.).round() / 4.).max(-12.).min(12.);
+        }
         let mut p = params(ANGLE_METHODS[(k % 6) as usize], E::None);
         if k % 3 == 0 {
             p.angles.insert(Prayer::Fajr, rng.range(9., 21.));
